@@ -379,3 +379,102 @@ Lemma mixed_file_witness :
   i_import [mixed_file] !! (0, 6, pA) = Some (true, 7) /\
   rib_entries (import [mixed_file]) 0 6 = [].
 Proof. vm_compute. repeat split; reflexivity. Qed.
+
+(* ------------------------------------------------------------------ *)
+(* dump files whose tables name only peers without an id: the registration of
+   a table entry is then exactly a find-or-register that registers, i.e. a
+   disciplined operation of C14's model, and uniqueness survives dumps too *)
+
+Lemma dump_query_same parent file p r :
+  reg_find_peers r (dump_info parent file p) = reg_find_peers r (mrt_query parent p).
+Proof. unfold reg_find_peers. apply find_all_ext. intros i. reflexivity. Qed.
+
+Lemma reg_peers_as_ops parent file ps : forall r,
+  peers_fresh parent file r ps ->
+  (reg_peers r parent file ps).1 = (run_from r (map (dump_op parent file) ps)).1.
+Proof.
+  induction ps as [|p ps IH]; intros r Hf; [reflexivity|].
+  cbn [peers_fresh] in Hf. destruct Hf as [Hnil Hf].
+  cbn [map]. rewrite run_from_cons.
+  assert (Hstep : (step r (dump_op parent file p)).1 =
+                  reg_update_info (reg_register r).2 (serial r) (dump_info parent file p)).
+  { unfold dump_op. cbn [step]. unfold find_or_register. fold (reg_find_peers r (dump_info parent file p)).
+    rewrite dump_query_same, Hnil. reflexivity. }
+  rewrite Hstep in Hf |- *. cbn [reg_peers reg_register fst snd] in *.
+  rewrite <- (IH _ Hf).
+  destruct (reg_peers _ parent file ps); reflexivity.
+Qed.
+
+Definition is_rib (rc : mrec) : bool := match rc with RRib _ _ _ => true | _ => false end.
+
+Lemma dump_walk_sok_ribs ids rest : forall us, dump_walk ids rest = (us, SOk) -> forallb is_rib rest = true.
+Proof.
+  induction rest as [|rc rest IH]; intros us H; [reflexivity|].
+  destruct rc as [ps|fam pfx [|e es]|p m|p old new|]; try discriminate H.
+  cbn [dump_walk] in H. destruct (fam <? 2); [|discriminate H].
+  destruct (rib_singles ids fam pfx (e :: es)) as [us1 [|]]; [|discriminate H].
+  destruct (dump_walk ids rest) as [us2 st2] eqn:E. injection H as _ ->.
+  cbn [forallb is_rib]. apply (IH us2). reflexivity.
+Qed.
+
+Lemma msgs_walk_is_rib parent r rest : forallb is_rib rest = true -> msgs_walk parent r rest = (r, []).
+Proof.
+  induction rest as [|rc rest IH]; intros Hok; [reflexivity|].
+  cbn [forallb] in Hok. apply andb_true_iff in Hok as [Hrc Hrest].
+  destruct rc as [ps|fam pfx es|p m|p old new|]; try discriminate Hrc.
+  cbn [msgs_walk msg_step]. rewrite (IH Hrest). reflexivity.
+Qed.
+
+(* whatever a file that starts with a table goes on to do - complete, or stop -
+   its effect on the register is the registration of the table's entries *)
+Lemma table_file_reg parent r name ps rest :
+  (process_file parent r (FGood name (RPit ps :: rest))).1.1 = (reg_peers r parent name ps).1.
+Proof.
+  cbn [process_file]. destruct (reg_peers r parent name ps) as [r1 ids]. cbn [fst].
+  destruct (dump_walk ids rest) as [us [|]] eqn:E; [|reflexivity].
+  change (RPit ps :: rest) with ([RPit ps] ++ rest). rewrite msgs_walk_app. cbn [msgs_walk msg_step].
+  rewrite (msgs_walk_is_rib parent r1 rest (dump_walk_sok_ribs ids rest us E)). reflexivity.
+Qed.
+
+Lemma file_reg parent r f :
+  file_fresh parent r f -> (process_file parent r f).1.1 = (run_from r (all_ops parent f)).1.
+Proof.
+  intros Hf. destruct f as [name recs|]; [|reflexivity].
+  destruct recs as [|[ps|fam pfx es|p m|p old new|] rest];
+    try (apply (update_file_reg parent r (FGood name _)); reflexivity).
+  rewrite table_file_reg. cbn [all_ops]. apply reg_peers_as_ops, Hf.
+Qed.
+
+Lemma queue_reg parent fs : forall r,
+  queue_fresh parent r fs -> (queue_run parent r fs).1 = (run_from r (flat_map (all_ops parent) fs)).1.
+Proof.
+  induction fs as [|f fs IH]; intros r Hq; [reflexivity|].
+  cbn [queue_fresh] in Hq. destruct Hq as [Hf Hq].
+  cbn [queue_run flat_map]. rewrite run_from_app, <- (file_reg parent r f Hf).
+  destruct (process_file parent r f) as [[r1 us] st]. cbn [fst] in *. rewrite <- (IH r1 Hq).
+  destruct (queue_run parent r1 fs); reflexivity.
+Qed.
+
+Lemma all_ops_disc parent f : forallb disc (all_ops parent f) = true.
+Proof.
+  destruct f as [name recs|]; [|reflexivity].
+  destruct recs as [|[ps|fam pfx es|p m|p old new|] rest]; try apply (file_ops_disc parent (FGood name _)).
+  cbn [all_ops]. induction ps as [|p ps IH]; [reflexivity|]. cbn [map forallb]. rewrite IH. reflexivity.
+Qed.
+
+(* ANY queue - dump files, update files, unreadable files, files the parser
+   stops in - in which every table entry names a peer that has no id at that
+   moment: lookups stay unambiguous and every peer keeps its id. *)
+Theorem fresh_queue_stable parent fs r :
+  queue_fresh parent r fs ->
+  Below r -> PeerUnique r ->
+  serial r + N.of_nat (length (flat_map (all_ops parent) fs)) < two32 ->
+  let r' := (queue_run parent r fs).1 in
+  Below r' /\ PeerUnique r' /\
+  forall p id, answers r (mrt_query parent p) id -> answers r' (mrt_query parent p) id.
+Proof.
+  intros Hq HB HU Hlen r'. subst r'. rewrite (queue_reg parent fs r Hq).
+  destruct (run_invariants (flat_map (all_ops parent) fs) r) as (B & U & _ & A);
+    [apply forallb_flat_map, all_ops_disc|exact Hlen|exact HB|exact HU|].
+  split; [exact B|]. split; [exact U|]. intros p id. apply A.
+Qed.
